@@ -659,19 +659,26 @@ def run_step(env, step, ev):
             ev.rejected += 1
             return "rejected"
         Lout = TemplateLookup(directories=[env.T], **env.lookup_kw)
+        # (on a broken tree the preparation itself may fail: then there is nothing to judge in this step; the failures of
+        # such a tree show in the other families)
         try:
             seen = Lout.get_template(uri).render_unicode()
-        except Exception as e:  # noqa: BLE001
-            raise core.HarnessError("the outside lookup could not serve %r: %r" % (uri, e))
+        except Exception:  # noqa: BLE001
+            seen = ""
         if MARK not in seen:
-            raise core.HarnessError("the outside lookup did not serve an outside file for %r" % uri)
+            ev.rejected += 1
+            ev.label("shared-step-unavailable")
+            return "rejected"
         del env.events[:]
         L2 = TemplateLookup(directories=list(env.dirs), **env.lookup_kw)
         what = "get_template(%r) after a lookup over %r compiled its own %r into the shared module directory" % (uri, env.T[len(env.top):], uri)
         if step.get("kind") == "include":
             st, t = env.gated(L2.get_template, env.caller_uri("c_include.html", 0, 0))
+            _audit_failure(env, case, "loading the calling template for " + what)
             if st != "ok":
-                raise core.HarnessError("calling template unavailable: %r" % (t,))
+                ev.rejected += 1
+                ev.label("shared-step-unavailable")
+                return "rejected"
             st, r = env.gated(t.render_unicode, u=uri)
             if st == "ok" and MARK in r:
                 _fail(env, case, "include from %s: output %r contains the outside marker" % (what, r[:80]), "escape:marker-in-output")
